@@ -407,10 +407,10 @@ def r4_task_exit(ctx):
                        "`%s` spawns with switch_before_exit = %s and no guarded pre-exit switch of its own: the exit of the task is not a choice point" % (k, v),
                        loc=cb.loc(s))
     # main thread
-    rc = prog.get("shuttle_engine::runtime::execution::Execution::run::{closure#0}::{closure#0}")
-    if rc is not None:
+    rc = ctx.closure("shuttle_engine::runtime::execution::Execution::run", TF, "C02.R4", "thread_fn")
+    if True:
         cs = [(s, t) for s, t in rc.calls() if TF in rc.callees_of_call(t, passed=False)]
-        if cs:
+        if ctx.floor("C02.R4", "thread_fn call of the main task", len(cs), 1):
             v = kinds.operand_const(rc, cs[0][1]["args"][1])
             ctx.ob("C02.R4", "switch_before_exit|main", v == 1, "the main task runs thread_fn with switch_before_exit = true", loc=rc.loc(cs[0][0]))
 
